@@ -4,6 +4,12 @@
 // Contracts for package anndb (server wiring; build tag verif only; no executable code).
 package anndb
 
+import (
+	"github.com/marekgalovic/anndb/storage/raft"
+)
+
+var _ *raft.RaftGroup
+
 // C14 (survives restart) / C05 (no re-bootstrap): the start-up sequence as typestate.
 //   consumers - the catalogue state machine is registered with the shared zero group
 // RaftGroup.Start applies the stored snapshot synchronously and launches the loop that replays the log, so every consumer
@@ -18,6 +24,7 @@ package anndb
 //@ at call RaftGroup).Start
 //@ requires [C14 register-before-start] consumers == 1
 //@ end
+//@ requires [config] this.config != nil
 //@ modifies *
 
 // constructors used by the wiring: only their existence matters for the ordering obligations (bodies are not read here)
@@ -40,24 +47,19 @@ package anndb
 //@ assume
 //@ ensures [t] ret != nil
 //@ modifies *
-//@ func storage/raft.NewSharedGroup
-//@ props C14 C05
-//@ assume
-//@ ensures [sg] isnil(ret1) ==> ret0 != nil
-//@ modifies *
 //@ func (*storage/raft.sharedGroup).Get
 //@ props C14 C05
 //@ assume
 //@ ensures [proxy] ret != nil
-//@ modifies *
+//@ modifies * except type raft.RaftGroup.raftLeaderId; type raft.RaftGroup.transport; type raft.RaftGroup.raft; type raft.RaftGroup.wal; type raft.RaftGroup.processFn; type raft.RaftGroup.processSnapshotFn; type raft.RaftGroup.snapshotFn; type raft.RaftGroup.ctx; type raft.RaftGroup.log; type raft.RaftGroup.id; type Server.zeroGroup; type Server.config; type Server.db; type Server.clusterConn; type Server.allocator
 //@ func storage/raft.NewNodesManager
 //@ props C14 C05
 //@ assume
-//@ modifies *
+//@ modifies * except type raft.RaftGroup.raftLeaderId; type raft.RaftGroup.transport; type raft.RaftGroup.raft; type raft.RaftGroup.wal; type raft.RaftGroup.processFn; type raft.RaftGroup.processSnapshotFn; type raft.RaftGroup.snapshotFn; type raft.RaftGroup.ctx; type raft.RaftGroup.log; type raft.RaftGroup.id; type Server.zeroGroup; type Server.config; type Server.db; type Server.clusterConn; type Server.allocator
 //@ func storage.NewDatasetManager
 //@ props C14 C05
 //@ assume
-//@ modifies *
+//@ modifies * except type raft.RaftGroup.raftLeaderId; type raft.RaftGroup.transport; type raft.RaftGroup.raft; type raft.RaftGroup.wal; type raft.RaftGroup.processFn; type raft.RaftGroup.processSnapshotFn; type raft.RaftGroup.snapshotFn; type raft.RaftGroup.ctx; type raft.RaftGroup.log; type raft.RaftGroup.id; type Server.zeroGroup; type Server.config; type Server.db; type Server.clusterConn; type Server.allocator
 //@ func (*anndb.Server).getRaftNodeId
 //@ props C14 C05
 //@ assume
